@@ -113,6 +113,10 @@ def run_schedule(cfg: dict[str, Any], chooser: Chooser) -> dict[str, Any]:
                         pass
                 try:
                     await sched.gate(f"inv{k}")
+                    # a long-running function checks for its own cancellation the way the library offers it: nobody has asked the
+                    # task that runs this invocation to cancel (cancelling a caller is not that)
+                    if not cfg.get("stale"):  # (a task that absorbed a request of its own HAS been asked to cancel)
+                        ctx.check_cancellation()
                 except asyncio.CancelledError:
                     rec["cancel_seen"] = True
                     raise
